@@ -16,7 +16,7 @@
    equals RFC 9106's B[i][j] recurrence; the model of that loop mirrors src/argon2.rs, reproduces
    both RFC 9106 test vectors by computation (below) and is run against the crate and libsodium
    by the check. *)
-From Dryoc Require Import Spec.Argon2 Impl.Argon2 Refine.Argon2.
+From Dryoc Require Import Spec.Argon2 Impl.Argon2 Refine.Argon2 Refine.Argon2Safe.
 Import Argon2Impl.
 Open Scope Z_scope.
 
@@ -62,6 +62,22 @@ Theorem C09_index_safe : forall seg pass slice index J1 same_lane,
   (pass <> 0 -> if same_lane then r <> cur /\ r <> (cur + 4 * seg - 1) mod (4 * seg)
                 else ~ (slice * seg <= r < (slice + 1) * seg)).
 Proof. exact ref_pos_safe. Qed.
+
+(* no Vec index of the filling loop can be out of range (argon2.rs would panic): with every
+   index checked, fill_segment never fails -- for every geometry argon2_hash sets up, every
+   pass / lane / slice, and ANY block contents (the reference index is data dependent) *)
+Theorem C09_fill_segment_indices_in_range : forall I pass lane slice,
+  geom I -> 0 <= lane < lanes I -> 0 <= slice <= 3 ->
+  fill_segment_chk I pass lane slice = Some (fill_segment I pass lane slice).
+Proof. exact fill_segment_safe. Qed.
+
+Theorem C09_geometry : forall t m ty, 8 <= m < 2 ^ 32 ->
+  let '(mb, seg) := norm_memory m 1 in
+  geom (mk_inst (repeat zero_block (Z.to_nat mb)) (repeat 0 (Z.to_nat seg)) t mb seg (mul32 seg SYNC_POINTS) 1 ty).
+Proof. exact argon2_geometry. Qed.
+
+Theorem C09_geometry_kept : forall I pass lane slice, geom I -> geom (fill_segment I pass lane slice).
+Proof. exact fill_segment_geom. Qed.
 
 Theorem C09_verify_iff : forall stored salt hl ops mem alg pwd,
   verify stored salt hl ops mem alg pwd = Ok tt <-> hash_with_salt pwd salt hl ops mem alg = Ok stored.
